@@ -50,6 +50,7 @@ type pool struct {
 	idom   []int
 	dom    *graphalg.DomTree
 	simpl  graph.Weighted
+	big    graph.IntGraph // optional: a graph whose node ids cross the mark set's growth boundary (nil in most runs)
 	invT   func(float64) float64
 	track  []tracked
 	knobEL int
@@ -262,6 +263,27 @@ func buildPool(g simkit.G) *pool {
 			}
 			return true
 		}})
+	}
+	// ---- optionally, a big graph: ids beyond 1024 so that traversals grow their visited set ----
+	if g.Chance(1, 6) {
+		n := 1030 + g.Intn(1200)
+		flat := mkI(2 * n)
+		rows := make([][]int, n)
+		k := 0
+		for u := 0; u < n; u++ {
+			start := k
+			if u+1 < n {
+				flat[k] = u + 1
+				k++
+			}
+			if u%3 == 0 && 2*u+1 < n {
+				flat[k] = 2*u + 1
+				k++
+			}
+			rows[u] = flat[start:k:k]
+		}
+		p.big = graph.IntGraph(rows)
+		p.trackI("big graph adjacency storage", flat)
 	}
 	// ---- dot attribute lists with spare capacity ----
 	for i := 0; i < 3; i++ {
